@@ -1035,6 +1035,30 @@ def run(ctx):
                     violation("spec", {"request": req[:6000], "impl": ans[:3000], "reasons": reasons, "expect": "error",
                                        "what": "content that cannot be expressed as well-formed XML was emitted without "
                                                "an error"})
+    # tree-level Spec oracle: the extracted SpecTree12.reparse applied to the text the *library* wrote must give
+    # SpecTree12.normalise of the tree (statement of T12_roundtrip, evaluated on the implementation's output)
+    rt_reqs, rt_owner = [], []
+    for k in midx:
+        (tr, enc, feats, req), ans = dcases[k], dimpl[k]
+        if not ans.startswith("ser=ok") or "b1" in feats:
+            continue
+        a = parse_doc_answer(ans)
+        units = decode_bytes(enc, unhex(a.get("bytes", "-"), 2))
+        if units is None:
+            continue
+        parts = req.split(" ", 4)
+        rt_reqs.append("rt %s %s %s %s %s" % (parts[1], parts[2], parts[3], H(units), parts[4]))
+        rt_owner.append(k)
+    _, rt_out, _ = run_bin(xm, rt_reqs)
+    rt_stats = {"same": 0, "na": 0, "differ": 0}
+    for k, o in zip(rt_owner, rt_out):
+        key = o.split()[0] if o else "differ"
+        rt_stats[key if key in rt_stats else "differ"] += 1
+        if key not in ("same", "na"):
+            violation("spec", {"request": dcases[k][3][:6000], "impl": dimpl[k][:3000], "spec": o[:1500],
+                               "what": "SpecTree12.reparse of the document the library wrote is not normalise(tree) "
+                                       "(tree-level Spec oracle, statement of T12_roundtrip)"})
+    stats["tree-spec-oracle"] = rt_stats
     for cls, n in sorted(known_hits.items()):
         ctx.known_hits = [h + (" ; %d generated trees of this class" % n if h.startswith(cls + ":") else "")
                           for h in ctx.known_hits]
